@@ -13,7 +13,7 @@ from ..grammar import (extract, Recogniser, tokenise, lr1_conflicts,
                        production_value)
 from ..printers import templates, injectivity, delimiter_problems
 from ..formulas import signatures, LANGS
-from ..report import Finding, RuleResult, floor
+from ..report import Finding, RuleResult, floor, Attempts
 
 PROP = 'C09'
 
@@ -419,8 +419,10 @@ def rule_rt4(prog, prop=PROP, rid='R-RT-4', langs=('PL', 'CTLS', 'LTL',
 
 def run(prog, tier, seed):
     G = grammars(prog)
-    results = [rule_rt0(prog, G), rule_rt1(prog, G), rule_rt2(prog, G),
-               rule_rt3(prog, G), rule_rt4(prog)]
+    T = Attempts()
+    results = T.results(T(rule_rt0, prog, G), T(rule_rt1, prog, G),
+                        T(rule_rt2, prog, G), T(rule_rt3, prog, G),
+                        T(rule_rt4, prog))
     expl = ('The grammar text of each parser is obtained by abstract '
             'interpretation of init_submodule; its productions (EBNF '
             'expanded by lark) are analysed by this checker: canonical '
@@ -439,4 +441,4 @@ def run(prog, tier, seed):
                    'driver follows its table',
                    'atom names are identifier-style and not reserved words',
                    'n-ary and/or have arity >= 2']
-    return results, expl, assumptions, {}
+    return results, expl, assumptions, T.extra()
